@@ -122,7 +122,7 @@ func configShape() ([]cfgLeaf, []cfgLevel) {
 	return leaves, levels
 }
 
-var c16Values = []string{"plain", "${V}", "pre-$V-post", "  $E  ", "  padded  ", "${project.version}/${dist-name}"}
+var c16Values = []string{"plain", "${V}", "pre-$V-post", "  $E  ", "  padded  ", "${project.version}/${dist-name}", "~/keys/k"}
 
 // c16ValuesThorough: further shapes - a bare variable name, brace/percent look-alikes, doubled and adjacent
 // references, '$' at the end, an unset variable, references padded with blanks, non-ASCII text.
@@ -774,6 +774,20 @@ func parseEntryPoints(env *engine.Env, text string) map[string]error {
 	defer os.Remove(p)
 	_, res["ParseFile"] = nfpm.ParseFile(p)
 	_, res["ParseFileWithEnvMapping"] = nfpm.ParseFileWithEnvMapping(p, noEnv)
+	// the name of the file says nothing about how it is read
+	for _, ext := range []string{".yml", ".json", ".conf", ""} {
+		q := filepath.Join(env.Scratch, "c16-entry-other"+ext)
+		os.WriteFile(q, []byte(text), 0o644)
+		_, res["ParseFile(name"+ext+")"] = nfpm.ParseFile(q)
+		os.Remove(q)
+	}
+	if js, jerr := respellText(text, "json"); jerr == nil && !strings.Contains(text, "<<") && !strings.Contains(text, "? ") && !strings.Contains(text, "!!") {
+		q := filepath.Join(env.Scratch, "c16-entry-flow.json")
+		os.WriteFile(q, []byte(js), 0o644)
+		_, res["ParseFile(flow style, name.json)"] = nfpm.ParseFile(q)
+		_, res["Parse(flow style)"] = nfpm.Parse(strings.NewReader(js))
+		os.Remove(q)
+	}
 	if f, err := os.Open(p); err == nil {
 		old := os.Stdin
 		os.Stdin = f
